@@ -12,7 +12,7 @@ def run(tier, seed):
               "g_23 = g_33 d(zShift)/dy, displacement scalar products, evaluated by Trace_Grid.tla at every index of centre/xlow/ylow. "
               "MLA.tla (which locations a MultiLocationArray expression has; reads create zero-filled locations): reachable graph compared state by state with the real class.")
     v.assumptions = ["closed-form right-hand sides for the grid traces are evaluated in floating point from the file's own R, Bp, Bt, hy, beta",
-                     "discretisation relations (displacements, zShift differences) are accepted within a factor 2 with exact sign"]
+                     "discretisation relations (displacements, zShift differences) are accepted within a factor 3 (finite displacements on coarse grids) with exact sign"]
     from . import c02_metric, mla
     c02_metric.run(v, tier, seed)
     mla.run(v, "C02")          # the container every metric expression is evaluated through
